@@ -5,15 +5,15 @@
 (*                                                                           *)
 (* The schema of this family is fixed:                                       *)
 (*   t1: attributes a, n   relationships o, o2 (to-one -> t2), m, m2 (to-many -> t2) *)
-(*   t2: attributes b, c1..c8  relationships p, o (to-one -> t1)               *)
+(*   t2: attributes b, c1..c8, d1..d9  relationships p, o (to-one -> t1)       *)
 (* A resource: [type, id, vals: [field -> [nil, r, ids]]].                    *)
 (* A document: [kind, coll, primary, included, nerrors, fields, reldata]      *)
 (*   kind \in {"null", "one", "many", "ident", "idents", "errors"}            *)
 (*   fields / reldata: [type -> Seq(name)]; a missing type = no entry.        *)
 EXTENDS Integers, Sequences, FiniteSets, TLC
 
-\* t2 carries eight more attributes so that a selection can name more than eight fields
-T2Extra == {"c1", "c2", "c3", "c4", "c5", "c6", "c7", "c8"}
+\* t2 carries seventeen more attributes so that a selection can name more than eight, and more than sixteen, fields
+T2Extra == {"c1", "c2", "c3", "c4", "c5", "c6", "c7", "c8", "d1", "d2", "d3", "d4", "d5", "d6", "d7", "d8", "d9"}
 AttrsOf(t) == IF t = "t1" THEN {"a", "n"} ELSE IF t = "t2" THEN {"b"} \cup T2Extra ELSE {}
 \* (t2 has a relationship "o" as well: the same name as t1's, on another type)
 RelsOf(t)  == IF t = "t1" THEN {"o", "m", "o2", "m2"} ELSE IF t = "t2" THEN {"p", "o"} ELSE {}
